@@ -109,9 +109,9 @@ func sameIKCache(a, b *Event) bool {
 
 // IsParentMismatchSKLeak recognises the listed finding "sk-ref-leak-on-parent-mismatch"
 // from the failing operation itself: in this operation an IK insert was refused as a
-// duplicate, the SDK fell back to the stored IK, that IK names a parent SK other than
-// the one the creator was holding (the latest SK), and the leaked secret's content is
-// exactly that parent SK.
+// duplicate, the SDK fell back to the stored IK, and the leaked secret's content is
+// exactly that IK's parent SK (which the SDK only looks up - and then never releases -
+// when it differs from the SK the creator was holding).
 func (w *World) IsParentMismatchSKLeak(ev *Event, leaked kit.SecretInfo) bool {
 	calls := w.Log.Calls[ev.CallFrom:ev.CallTo]
 	for i, c := range calls {
@@ -127,8 +127,7 @@ func (w *World) IsParentMismatchSKLeak(ev *Event, leaked kit.SecretInfo) bool {
 				continue
 			}
 			parent := w.Store.Get(row.Rec.ParentKeyMeta.ID, row.Rec.ParentKeyMeta.Created)
-			latest := w.Store.Latest(row.Rec.ParentKeyMeta.ID)
-			if parent == nil || latest == nil || parent.Created == latest.Created {
+			if parent == nil {
 				continue
 			}
 			pt, err := kit.KMSUnwrap(w.KMS.Master, parent.Rec.EncryptedKey)
